@@ -132,7 +132,7 @@ fn build(ch: &mut Chooser, fmt: &'static str) -> FCase {
     let sk = style_kinds();
     let k = ch.choose("style-kind", sk.len());
     let (label, id, code, class) = sk[k];
-    let values = [44197.0f64, 0.5, 44197.75, 1.0, 60.0];
+    let values = [44197.0f64, 0.5, 44197.75, 1.0, 60.0, -1.5];
     let v = values[ch.choose("value", values.len())];
     let is1904 = ch.flag("date1904");
     // style table: the wanted XF sits at index `pos` among decoys
@@ -164,7 +164,7 @@ fn build(ch: &mut Chooser, fmt: &'static str) -> FCase {
             c.style = Some(style);
             if encn == 2 { c.formula = Some(xlsx::XFormula::Plain("1+1".into())); }
             let book = xlsx::XBook { sheets: vec![xlsx::XSheet::new("S", vec![c])], styles: Some(xlsx::XStyles { num_fmts: fmts.iter().map(|(a, b)| (*a as u32, b.clone())).collect(), cell_xfs: xfs.iter().map(|x| *x as u32).collect(), cell_style_xfs: vec![14, 0], omit_general_numfmt: omit }), date1904: Some(is1904), ..Default::default() };
-            let e = xlsx::XEnc { prefix, explicit_t_n: encn == 1, apply_nf: ch.choose("xlsx.applyNumberFormat(1,absent,0)", 3) as u8, ..Default::default() };
+            let e = xlsx::XEnc { prefix, explicit_t_n: encn == 1, apply_nf: ch.choose("xlsx.applyNumberFormat(1,absent,0)", 3) as u8, numfmt_code_first: k % 2 == 1, bool_words: v.fract() != 0.0, ..Default::default() };
             FCase { bytes: xlsx::write(&book, &e), expect: expect_num(v), desc: format!("xlsx style={label} v={v} 1904={is1904} enc={encn} prefix={prefix} general-xf-without-numFmtId={omit} xf@{style}"), fmt }
         }
         "xls" => {
